@@ -19,6 +19,7 @@ func C09(c *Ctx) {
 	r.Assumptions = []string{"the rewrites are language-preserving when their side conditions hold (choice/sequence flattening, single-element unwrapping, literal concatenation, class union)"}
 	r.Rule("C09-a", "for every (type, field) the optimizer visitors store to, and every type with Expression children: cloneExpr has a case returning a fresh &T{…} whose Expression children are cloneExpr results and whose mutated slice fields are fresh copies")
 	r.Rule("C09-e", "closed world of rewrites: the optimizer visitors store only to the (type, field) pairs of the documented rewrites (operand slots of the composite kinds, LitMatcher.Val, the member lists and Val of CharClassMatcher, Grammar.Rules); a store to any other field is a rewrite no side-condition rule covers")
+	r.Rule("C09-f", "effects of the merge rewrites: (1) merging two classes appends all three member lists (Chars, Ranges, UnicodeClasses) of the second to the first; (2) in every merge case the node that received the members is the one left at index i-1 (it already is, or it is stored there) before element i is removed; (3) removal of element i happens iff a merge was applied; (4) a referenced rule is inlined only when it is defined and uses no rules; (5) the reference bookkeeping records both directions and the clean-up after removing a rule deletes exactly that rule from the user sets; (6) the duplicate removal of cleanupCharClassMatcher keeps every distinct member (append under the not-seen test) for all three lists")
 	r.Rule("C09-b", "each case of the alternative-merge switch that builds or extends a CharClassMatcher requires !X.Inverted for every class operand, IgnoreCase equality of the two operands and a single rune for every literal operand")
 	r.Rule("C09-c", "ast.Walk and cloneExpr: one case per expression kind; Walk recurses into every Expression child; no kind reaches a panicking default")
 	r.Rule("C09-d", "rules are removed only under !used && !protected; protectedRules = alternateEntrypoints ∪ {first rule}; main passes -alternate-entrypoints to ast.Optimize")
@@ -34,6 +35,7 @@ func C09(c *Ctx) {
 	_ = ap
 	// ---- b: merge guards
 	c09Merge(c, g)
+	c09Effects(c, g)
 	// ---- c
 	traversalExhaustiveness(c, "C09-c", nil)
 	// ---- d
@@ -498,4 +500,198 @@ func c09Entrypoints(c *Ctx, g *load.G) {
 	}
 	r.Check(okSet, "C09-d", "G.main.ruleNamesFlag.Set:accumulates", "", "main.go", "every occurrence of -alternate-entrypoints adds to the list", "Set does not append to the names collected so far: with the flag given twice only the last list is protected, the other rules are removed by the optimizer")
 	r.Check(okMain, "C09-d", "G.main:passes-alternate-entrypoints", "", "main.go", "ast.Optimize(grammar, altEntrypointsFlag...)", "main does not pass the -alternate-entrypoints list to the optimizer")
+}
+
+// c09Effects: structural post-conditions of the rewrites (see rule C09-f).
+func c09Effects(c *Ctx, g *load.G) {
+	r := c.R
+	ap := g.Pkg("ast")
+	fd := load.FuncDecl(ap, "grammarOptimizer", "optimize")
+	if fd == nil {
+		return
+	}
+	// the merge switch of the choice case
+	var sw *ast.SwitchStmt
+	ast.Inspect(fd.Body, func(n ast.Node) bool {
+		if x, ok := n.(*ast.SwitchStmt); ok && x.Tag == nil && sw == nil {
+			for _, cl := range x.Body.List {
+				for _, st := range cl.(*ast.CaseClause).Body {
+					if as, ok := st.(*ast.AssignStmt); ok && nospace(as.Lhs[0]) == "combined" {
+						sw = x
+					}
+				}
+			}
+		}
+		return true
+	})
+	if sw == nil {
+		r.Unk("C09-f", "G.ast.optimize:merge-effects", "", g.Where(fd.Pos()), "merge switch not found")
+		return
+	}
+	for i, cl := range sw.Body.List {
+		cc := cl.(*ast.CaseClause)
+		if len(cc.List) != 1 {
+			continue
+		}
+		cond := nospace(cc.List[0])
+		var stores []string
+		for _, st := range cc.Body {
+			if as, ok := st.(*ast.AssignStmt); ok {
+				stores = append(stores, nospace(as.Lhs[0])+"="+nospace(as.Rhs[0]))
+			}
+		}
+		has := func(x string) bool {
+			for _, s := range stores {
+				if s == x {
+					return true
+				}
+			}
+			return false
+		}
+		var bad []string
+		if !has("combined=true") {
+			bad = append(bad, "the case does not set combined (the absorbed alternative would stay in the list)")
+		}
+		switch {
+		case strings.HasPrefix(cond, "cok0&&cok1"):
+			for _, f := range []string{"Chars", "Ranges", "UnicodeClasses"} {
+				if !has("c0." + f + "=append(c0." + f + ",c1." + f + "...)") {
+					bad = append(bad, "member list "+f+" of the second class is not appended to the first: its members are lost when the second alternative is removed")
+				}
+			}
+		case strings.HasPrefix(cond, "lok0&&cok1"):
+			if !has("c1.Chars=append(c1.Chars,[]rune(l0.Val)...)") || !has("expr.Alternatives[i-1]=c1") {
+				bad = append(bad, "the literal's rune must be added to the class and the class stored at index i-1 (element i is removed afterwards)")
+			}
+		case strings.HasPrefix(cond, "cok0&&lok1"):
+			if !has("c0.Chars=append(c0.Chars,[]rune(l1.Val)...)") {
+				bad = append(bad, "the literal's rune is not added to the class that stays at index i-1")
+			}
+		case strings.HasPrefix(cond, "lok0&&lok1"):
+			okNew := false
+			for _, s := range stores {
+				if strings.HasPrefix(s, "expr.Alternatives[i-1]=&") {
+					okNew = true
+				}
+			}
+			if !okNew {
+				bad = append(bad, "the new class is not stored at index i-1")
+			}
+		}
+		sort.Strings(bad)
+		r.Check(len(bad) == 0, "C09-f", fmt.Sprintf("G.ast.optimize:merge-case#%d:effect", i+1), "", g.Where(cc.Pos()), "members moved completely, survivor at index i-1, combined set", strings.Join(bad, "; "))
+	}
+	// (3) removal iff combined
+	okRemove := false
+	ast.Inspect(fd.Body, func(n ast.Node) bool {
+		if is, ok := n.(*ast.IfStmt); ok && nospace(is.Cond) == "combined" {
+			t := ""
+			ast.Inspect(is.Body, func(m ast.Node) bool {
+				if as, ok := m.(*ast.AssignStmt); ok {
+					t += nospace(as.Lhs[0]) + "=" + nospace(as.Rhs[0]) + ";"
+				}
+				return true
+			})
+			okRemove = strings.Contains(t, "expr.Alternatives=append(expr.Alternatives[:i],expr.Alternatives[i+1:]...);") && strings.Contains(t, "expr.Alternatives=expr.Alternatives[:i];")
+		}
+		return true
+	})
+	r.Check(okRemove, "C09-f", "G.ast.optimize:absorbed-alternative-removed", "", g.Where(fd.Pos()), "element i is removed exactly when a merge was applied", "the removal of the absorbed alternative is not `if combined { drop element i }`")
+	// (4) inlining guard
+	or := load.FuncDecl(ap, "grammarOptimizer", "optimizeRule")
+	okInline := false
+	why := "cloneExpr call not found"
+	if or != nil {
+		for _, ce := range callsIn(or.Body) {
+			if callName(ce) == "cloneExpr" {
+				gs := guardsOf(or.Body, ce.Pos())
+				conj := map[string]bool{}
+				for _, gd := range gs {
+					for _, x := range strings.Split(gd, "&&") {
+						conj[x] = true
+					}
+				}
+				okInline = conj["defined"] && conj["!usesRules"] && conj["ok"]
+				why = "guards [" + strings.Join(gs, ";") + "]"
+			}
+		}
+		// definitions of the two facts
+		defs := map[string]string{}
+		ast.Inspect(or.Body, func(n ast.Node) bool {
+			if as, ok := n.(*ast.AssignStmt); ok && len(as.Lhs) == 2 && len(as.Rhs) == 1 {
+				defs[nospace(as.Lhs[1])] = nospace(as.Rhs[0])
+			}
+			return true
+		})
+		if !(defs["usesRules"] == "r.ruleUsesRules[ruleRef.Name.Val]" && defs["defined"] == "r.rules[ruleRef.Name.Val]") {
+			okInline = false
+			why += fmt.Sprintf("; usesRules := %s, defined := %s", defs["usesRules"], defs["defined"])
+		}
+	}
+	r.Check(okInline, "C09-f", "G.ast.optimizeRule:inline-only-defined-leaf-rules", "", "ast/ast_optimize.go", "a reference is replaced by a clone only if the rule is defined and references no rule", why+": inlining a rule that references rules can recurse without end or drop the bookkeeping of its references")
+	// (5) bookkeeping
+	setf := load.FuncDecl(ap, "", "set")
+	okSet := false
+	if setf != nil {
+		t := ""
+		ast.Inspect(setf.Body, func(n ast.Node) bool {
+			if as, ok := n.(*ast.AssignStmt); ok {
+				t += nospace(as.Lhs[0]) + "=" + nospace(as.Rhs[0]) + "[" + strings.Join(guardsOf(setf.Body, as.Pos()), ";") + "];"
+			}
+			return true
+		})
+		okSet = strings.Contains(t, "m[src][dst]=struct{}{}[];")
+	}
+	initf := load.FuncDecl(ap, "grammarOptimizer", "init")
+	okInit := false
+	if initf != nil {
+		var cs []string
+		for _, ce := range callsIn(initf.Body) {
+			if callName(ce) == "set" {
+				var as []string
+				for _, a := range ce.Args {
+					as = append(as, nospace(a))
+				}
+				cs = append(cs, strings.Join(as, ","))
+			}
+		}
+		sort.Strings(cs)
+		okInit = strings.Join(cs, "|") == "r.ruleUsedByRules,expr.Name.Val,r.rule|r.ruleUsesRules,r.rule,expr.Name.Val"
+	}
+	var cleanup []string
+	ast.Inspect(fd.Body, func(n ast.Node) bool {
+		if ce, ok := n.(*ast.CallExpr); ok && callName(ce) == "delete" && strings.Contains(nospace(ce.Args[0]), "ruleUsedByRules") {
+			cleanup = append(cleanup, nospace(ce)+"["+strings.Join(guardsOf(fd.Body, ce.Pos()), ";")+"]")
+		}
+		return true
+	})
+	okClean := len(cleanup) == 2 && strings.HasSuffix(cleanup[0], "kk==rule.Name.Val]") && strings.HasSuffix(cleanup[1], "kk==rule.Name.Val;len(r.ruleUsedByRules[k])==0]")
+	r.Check(okSet && okInit && okClean, "C09-f", "G.ast.optimizer:reference-bookkeeping", "", "ast/ast_optimize.go", "uses/used-by recorded for every reference; a removed rule is deleted from exactly its entries",
+		fmt.Sprintf("set-inserts=%t both-directions-recorded=%t cleanup=%v: rules still referenced can be removed (or unused ones kept)", okSet, okInit, cleanup))
+	// (6) duplicate removal keeps every distinct member
+	cf := load.FuncDecl(ap, "grammarOptimizer", "cleanupCharClassMatcher")
+	if cf != nil {
+		kept := map[string]bool{}
+		ast.Inspect(cf.Body, func(n ast.Node) bool {
+			is, ok := n.(*ast.IfStmt)
+			if !ok || is.Init == nil || nospace(is.Cond) != "!ok" {
+				return true
+			}
+			for _, st := range is.Body.List {
+				if as, ok := st.(*ast.AssignStmt); ok && strings.HasPrefix(nospace(as.Rhs[0]), "append("+nospace(as.Lhs[0])+",") {
+					kept[nospace(as.Lhs[0])] = true
+				}
+			}
+			return true
+		})
+		installs := map[string]bool{}
+		ast.Inspect(cf.Body, func(n ast.Node) bool {
+			if as, ok := n.(*ast.AssignStmt); ok && strings.HasPrefix(nospace(as.Lhs[0]), "chr.") && kept[nospace(as.Rhs[0])] {
+				installs[nospace(as.Lhs[0])] = true
+			}
+			return true
+		})
+		ok := kept["chars"] && kept["ranges"] && kept["unicodeClasses"] && installs["chr.Chars"] && installs["chr.Ranges"] && installs["chr.UnicodeClasses"]
+		r.Check(ok, "C09-f", "G.ast.cleanupCharClassMatcher:keeps-every-distinct-member", "", g.Where(cf.Pos()), "each of the three lists is rebuilt by appending every not-yet-seen member", fmt.Sprintf("rebuilt lists %v, installed %v: members of a merged class are lost", keysOf(kept), keysOf(installs)))
+	}
 }
